@@ -56,6 +56,8 @@ type Sim struct {
 	Cancel   context.CancelFunc
 	snapMu   sync.Mutex
 	snapCh   chan []tor.VerifRequestedPiece
+	heldCh   chan chan []peer.TorEvent
+	rel      chan []peer.TorEvent
 	LogLines []string
 	killed   bool
 }
@@ -63,6 +65,7 @@ type Sim struct {
 type logWriter struct{ s *Sim }
 
 const probeMsg = "TorDrop: odd offset"
+const holdMsg = "TorData: odd offset"
 
 func (w logWriter) Write(p []byte) (int, error) {
 	if strings.Contains(string(p), probeMsg) {
@@ -70,6 +73,17 @@ func (w logWriter) Write(p []byte) (int, error) {
 		snap := w.s.T.VerifRequested()
 		sort.Slice(snap, func(i, j int) bool { return snap[i].Index < snap[j].Index })
 		w.s.snapCh <- snap
+		return len(p), nil
+	}
+	if strings.Contains(string(p), holdMsg) {
+		// on the event loop's goroutine: park the loop until the harness releases it;
+		// the events handed over at release are handled first, as if they had been
+		// queued ahead of everything that piled up meanwhile
+		rel := make(chan []peer.TorEvent)
+		w.s.heldCh <- rel
+		for _, e := range <-rel {
+			tor.VerifHandleEvent(context.Background(), w.s.T, e)
+		}
 		return len(p), nil
 	}
 	w.s.snapMu.Lock()
@@ -137,7 +151,7 @@ func New(name string, salt uint32, ps uint32, files []File, single bool) (*Sim, 
 		return nil, err
 	}
 	s := &Sim{T: t, Content: content, PS: ps, N: t.Pieces.Num(), Files: files,
-		snapCh: make(chan []tor.VerifRequestedPiece, 4)}
+		snapCh: make(chan []tor.VerifRequestedPiece, 4), heldCh: make(chan chan []peer.TorEvent, 1)}
 	t.Log.SetFlags(0)
 	t.Log.SetOutput(logWriter{s})
 	ctx, cancel := context.WithCancel(context.Background())
@@ -178,6 +192,39 @@ func (s *Sim) Snapshot() ([]tor.VerifRequestedPiece, bool) {
 	}
 }
 
+// Hold parks the event loop inside a harmless handler (TorData at an odd offset logs and
+// returns): events sent from now on pile up in Torrent.Event.  False if the loop is dead.
+func (s *Sim) Hold() bool {
+	if s.rel != nil {
+		return true
+	}
+	select {
+	case s.T.Event <- peer.TorData{Begin: 1}:
+	case <-s.T.Done:
+		return false
+	}
+	select {
+	case s.rel = <-s.heldCh:
+		return true
+	case <-s.T.Done:
+		return false
+	case <-time.After(10 * time.Second):
+		panic("torsim: hold probe not answered (event loop stuck)")
+	}
+}
+
+func (s *Sim) Held() bool { return s.rel != nil }
+
+// Release lets the loop go on; `front` is handled first (events that were sent before the
+// ones now waiting in the queue, by a sender that was faster).
+func (s *Sim) Release(front []peer.TorEvent) {
+	if s.rel == nil {
+		return
+	}
+	s.rel <- front
+	s.rel = nil
+}
+
 // Sync waits until every event sent so far has been handled by the loop.
 func (s *Sim) Sync() bool {
 	_, ok := s.Snapshot()
@@ -204,7 +251,34 @@ func (s *Sim) Corrupt(i uint32) (bool, error) {
 	return s.inject(i, true)
 }
 
-func (s *Sim) inject(i uint32, corrupt bool) (bool, error) {
+// Verify does what Complete does except telling the loop: the caller delivers the
+// TorHave(i, true) itself (Release).
+func (s *Sim) Verify(i uint32) (bool, error) { return s.injectOpt(i, false, false) }
+
+// Garbage stores wrong bytes in piece i the way a corrupting peer's blocks would land
+// (AddData only, no verification): the whole piece, or its first block only.
+func (s *Sim) Garbage(i uint32, whole bool) {
+	off, end := s.PieceRange(i)
+	data := make([]byte, end-off)
+	for k := range data {
+		data[k] = s.Content[off+int64(k)] ^ 0xA5
+	}
+	const cs = 16384
+	for b := 0; b < len(data); b += cs {
+		e := b + cs
+		if e > len(data) {
+			e = len(data)
+		}
+		s.T.Pieces.AddData(i, uint32(b), data[b:e], 9)
+		if !whole {
+			break
+		}
+	}
+}
+
+func (s *Sim) inject(i uint32, corrupt bool) (bool, error) { return s.injectOpt(i, corrupt, true) }
+
+func (s *Sim) injectOpt(i uint32, corrupt bool, have bool) (bool, error) {
 	off, end := s.PieceRange(i)
 	data := append([]byte(nil), s.Content[off:end]...)
 	if corrupt {
@@ -227,7 +301,7 @@ func (s *Sim) inject(i uint32, corrupt bool) (bool, error) {
 		return false, nil // busy or already complete
 	}
 	done, _, err := s.T.Pieces.Finalise(i, s.T.PieceHashes[i])
-	if done {
+	if done && have {
 		s.T.Have(i, true)
 	}
 	if errors.Is(err, piece.ErrHashMismatch) {
@@ -263,6 +337,7 @@ func (s *Sim) Kill() error {
 	if s.killed {
 		return nil
 	}
+	s.Release(nil)
 	s.killed = true
 	err := s.T.Kill(context.Background())
 	select {
